@@ -282,6 +282,7 @@ fn key_input_case(ctx: &mut Ctx, idx: usize, w: &World, w2: &World) {
     }
     // keys differing from the original in a single element (each of the 13 in turn)
     let book = ctx.book.clone();
+    let mut seen: Vec<(String, [u8; 32])> = vec![("original".into(), a), ("independent-key".into(), b)];
     for e in 0..13 {
         let mut k = w.kpd.pk.clone();
         let what = match e { 0 => { k.g1 += Scalar::one(); "g1".to_string() } 1..=5 => { k.y1s[e - 1] += Scalar::one(); format!("Y_{}", e) } 6 => { k.g2 += Scalar::one(); "g~".into() } 7 => { k.x2 += Scalar::one(); "X~".into() } _ => { k.y2s[e - 8] += Scalar::one(); format!("Y~_{}", e - 7) } };
@@ -292,6 +293,19 @@ fn key_input_case(ctx: &mut Ctx, idx: usize, w: &World, w2: &World) {
         if c == a {
             ctx.violation(&format!("replacing the element {} of the merchant public key leaves the channel id unchanged", what), json!({"class": "channel-id-key-element-not-bound", "element": what}));
         }
+        // neighbour keys are evaluated back to back on one thread: all fifteen ids are pairwise different (a value
+        // carried over from the previous call, keyed on part of the key, shows as two neighbours with one id)
+        if let Some((prev, _)) = seen.iter().find(|(_, v)| *v == c) {
+            ctx.violation(&format!("the keys with element {} replaced and with element {} replaced (all else equal) have the same channel id", prev, what), json!({"class": "channel-id-neighbour-keys-collide", "first": prev, "second": what}));
+        }
+        seen.push((what, c));
+    }
+    // … and the original key again, after its neighbours: the id it had before
+    let a2 = ChannelId::new(wire::de(&mr).unwrap(), wire::de(&cr).unwrap(), w.customer.merchant_public_key(), b"m", b"c").to_bytes();
+    ctx.evals += 1;
+    ctx.count(&format!("channel-id:original-key-after-neighbours:{}", if a2 == a { "same" } else { "DIFFERENT" }));
+    if a2 != a {
+        ctx.violation("the channel id of a key changes after ids were derived for neighbouring keys", json!({"class": "channel-id-not-deterministic", "after": "neighbour-keys"}));
     }
 }
 
